@@ -27,8 +27,10 @@ LIBKINDS = ['KLabelTwice', 'KPadEval', 'KPadNonPositive', 'KPadUnaligned', 'KSeg
 
 # recorded defects of the unchanged tree: the theorems carry these guards; a case failing the specification only
 # because of one of them is reported as that finding (KNOWN-FINDING when listed in known_findings.json)
+# fixed in /repo: never guarded, a reappearance is a violation with the old signature
+FIXED = {'aux-op-on-io-cell', 'jump-word-wrapped'}
 DEFECTS = {
-    'aux-op-on-io-cell': 'a wflip chain op is placed in the pad hole / wflip area at address 2w (the op holding the '
+    'aux-op-on-io-cell': 'REGRESSION of fixed finding F16: a wflip chain op is placed in the pad hole / wflip area at address 2w (the op holding the '
                          'input cell): executing the wflip consumes input and may corrupt its own jump word',
     'jump-word-wrapped': 'REGRESSION of fixed finding F8: fjm versions 2/3 store a jump word outside [0,2^w) modulo 2^w '
                          'instead of rejecting the program',
@@ -182,9 +184,7 @@ def evaluate(ctx, name, jobs, results, count=True):
         else:
             ctx.hist('outcome', 'assembled')
         g = None
-        if aux_on_io(j, r) and not listed(ctx, 'aux-op-on-io-cell'):
-            g = 'aux-op-on-io-cell'
-        elif label_collision(r) and not listed(ctx, 'generated-label-collision'):
+        if label_collision(r) and not listed(ctx, 'generated-label-collision'):
             g = 'generated-label-collision'
         if g:
             gkind[i] = g
@@ -251,7 +251,7 @@ def evaluate(ctx, name, jobs, results, count=True):
             sig = {'kind': defect or 'denotation-violated'}
             what = (f'the assembled image (w={j["w"]}, fjm v{j["version"]}) is not the denotation of the source: {where}'
                     + (f' [{DEFECTS[defect]}]' if defect else ''))
-            if defect and not listed(ctx, defect):
+            if defect and defect not in FIXED and not listed(ctx, defect):
                 ctx.hist('guarded_defects', defect)     # recorded defect, theorem guard in force (reported by the builder)
                 ctx.sample({'guarded_defect': defect, 'src': j['src'], 'w': j['w'], 'version': j['version']}, limit=8)
             else:
